@@ -90,7 +90,7 @@ pub open spec fn kid_spec(t: KeyType, s: SignatureScheme, algs: Option<Vec<Strin
     },
 //@after /let public_key = Json::canonicalize\(&Json::serialize\(&public_key\)\?\)\?;/
     let ghost raw0 = public_key@;
-//@after /\.replace\("\\\\n", "\\n"\);/
+//@after /\.replace\("\\\\n", "\\n"\);/ optional
     proof { fact_replace_str_pattern(vstd::utf8::decode_utf8(raw0), "\\n", "\n"@); fact_digest_hex(vstd::utf8::encode_utf8(public_key@)); }
 //@end
 
